@@ -152,7 +152,7 @@ pub fn run(args: &Args) -> i32 {
         }
     });
     // template track multisets: per-track t of the primary vertex
-    let ms = multisets(6, if thorough { 5 } else { 3 });
+    let ms = multisets(7, if thorough { 5 } else { 3 });
     rep.run("template-vertices", ms.len() as u64, 600, true, "multisets of template tracks (through the axis, back to back, zero pitch, identical copy, huge radius with subnormal pitch, off axis with large pitch): per-track t of the primary vertex", |idx, loc| {
         let t = template_tracks();
         let set: Vec<Track> = ms[idx as usize].iter().map(|&i| t[i]).collect();
